@@ -55,16 +55,16 @@ KINDS = ["recording_set", "dataset", "annotation_set", "annotation_project", "ev
          "evaluation"]
 NOMINAL = "/data"  # base directory of the shapes when saving without directory
 
-BASE_SHAPES = ["file", "sub_space", "unicode", "deep", "self", "sibling", "elsewhere", "relative"]
+BASE_SHAPES = ["file", "sub_space", "unicode", "deep", "self", "sibling", "elsewhere", "relative", "backslash"]
 EXTRA_SHAPES = ["hidden", "same_name", "redundant", "parent", "cjk_space"]
 PLAIN = "file"
 PREVIOUS = "PREVIOUS CONTENT OF THE TARGET\n" * 256  # 7936 bytes: longer than any document written here (largest: ~3 kB)
 
 
 def dirs(tier):
-    d = ["/data", "/data/a b", "/data/ü/深"]
+    d = ["/data", "/data/a b", "/data/ü/深", "rel/audio"]
     if tier != "quick":
-        d += ["rel/audio", "/d.wav"]
+        d += ["/d.wav"]
     return d
 
 
@@ -243,6 +243,9 @@ def shape_path(shape, base, i):
         return j("ü", "é%s.wav" % n)
     if shape == "deep":
         return j("a", "b", "c", "d%s.wav" % n)
+    if shape == "backslash":
+        # a backslash is an ordinary character of a POSIX file name, not a separator
+        return j("2024\\06", "unit\\7%s.wav" % n)
     if shape == "self":
         return base
     if shape == "sibling":
